@@ -212,6 +212,51 @@ func c14(x *ctx) {
 				}
 			}
 		}
+		// keyword arguments passed to `yield` (and to a block's `call`): the block parameters the enclosing
+		// method reports, and diagnostics inside the block that receives them, must not depend on their order
+		for K := 2; K <= 3; K++ {
+			nv := 1
+			for i := 0; i < K; i++ {
+				nv *= len(splatVals)
+			}
+			perms := gen.Permutations(K)
+			for _, form := range []string{"yield", "yield-pos", "block-call"} {
+				for sv := 0; sv < nv; sv++ {
+					sup := make([]string, K)
+					v := sv
+					for i := 0; i < K; i++ {
+						sup[i] = fmt.Sprintf("k%d: %s", i, splatVals[v%len(splatVals)])
+						v /= len(splatVals)
+					}
+					nCalls++
+					mk := func(perm []int) string {
+						var as []string
+						for _, j := range perm {
+							as = append(as, sup[j])
+						}
+						args := strings.Join(as, ", ")
+						switch form {
+						case "yield-pos":
+							return "def m\n  yield(7, " + args + ")\nend\nm do |bx, by|\n  bx.zork\n  by.zork\nend\n"
+						case "block-call":
+							return "def m(&blk)\n  blk.call(" + args + ")\nend\nm do |bx|\n  bx.zork\nend\n"
+						}
+						return "def m\n  yield(" + args + ")\nend\nm do |bx, by|\n  bx.zork\n  by.zork\nend\n"
+					}
+					base := &engine.Case{Cfg: "core", Files: map[string]string{"t.rb": mk(perms[0])}, Argv: []string{"t.rb", "-i"}}
+					bkey := fmt.Sprintf("yield|%s|%d|%d", form, K, sv)
+					form := form
+					for _, perm := range perms[1:] {
+						emit(&mItem{baseKey: bkey, base: base,
+							variant: &engine.Case{Cfg: "core", Files: map[string]string{"t.rb": mk(perm)}, Argv: []string{"t.rb", "-i"}},
+							sig: func(b, v string) string {
+								return fmt.Sprintf("kwperm:%s:K=%d:%s", form, K, diffClass(b, v))
+							},
+							desc: fmt.Sprintf("keyword order %v of %q passed through %s", perm, sup, form)})
+					}
+				}
+			}
+		}
 	}, &mOpts{cfgFiles: cfgFiles})
 	r.Bounds = map[string]any{"max_keywords": maxK, "definitions": nDefs, "calls": nCalls, "values": "absent|Integer|String per key, optional unknown key, 0-1 positional",
 		"K>=4": "2 parameter kinds, every third value vector", "K=5": "every fourth kind vector"}
